@@ -33,6 +33,12 @@ OpaqueAlphabet == { C("call", <<C(",", <<GC, C("w", <<X>>)>>)>>),               
                     C(",", <<C("=", <<Y, GC>>), Y>>),                                                \* Y = (g(X), !), Y
                     C(",", <<C("=", <<Y, C(",", <<GC, A("true")>>)>>), C("call", <<Y>>)>>),          \* Y = ((g(X), !), true), call(Y)
                     G(X), A("!"), C("w", <<X>>) }
+\* "deep": a deterministic goal between the call of a committing construct and its cut. For the specification deep/0 is a fact;
+\* the replayer (option deep) loads it as a recursion 2 500 levels deep, so that the cut happens far above the choice points and
+\* frames it must keep (an implementation that trims or compacts its stacks must not lose the cut's barrier)
+Deep == A("deep")
+DeepAlphabet == { G(X), A("!"), C("w", <<X>>), C("once", <<Deep>>), C("->", <<Deep, C("w", <<X>>)>>), C("call", <<C(",", <<Deep, A("!")>>)>>),
+                  C("\\+", <<C("\\+", <<Deep>>)>>), C("once", <<C(",", <<G(X), Deep>>)>>), C(",", <<Deep, A("!")>>) }
 RECURSIVE Conj(_)
 Conj(s) == IF Len(s) = 0 THEN A("true") ELSE IF Len(s) = 1 THEN s[1] ELSE C(",", <<s[1], Conj(Tail(s))>>)
 
@@ -41,7 +47,7 @@ CONSTANTS N1,       \* maximal length of the first clause body
           ND,       \* maximal length of each branch of a top-level disjunctive first body (0: none)
           NCTX,     \* number of calling contexts used (1..8)
           ALPHA     \* "full" | "cuts" | "opaque": the alphabet of body goals
-Seqs(n) == UNION { [1..k -> (IF ALPHA = "full" THEN Alphabet ELSE IF ALPHA = "cuts" THEN CutAlphabet ELSE OpaqueAlphabet)] : k \in 0..n }
+Seqs(n) == UNION { [1..k -> (IF ALPHA = "full" THEN Alphabet ELSE IF ALPHA = "cuts" THEN CutAlphabet ELSE IF ALPHA = "deep" THEN DeepAlphabet ELSE OpaqueAlphabet)] : k \in 0..n }
 
 Bodies1 == { Conj(s) : s \in Seqs(N1) } \cup
            (IF ND = 0 THEN {} ELSE { C(";", <<Conj(s), Conj(t)>>) : s \in Seqs(ND) \ {<<>>}, t \in Seqs(ND) \ {<<>>} })
@@ -50,6 +56,7 @@ Bodies2 == { Conj(s) : s \in Seqs(N2) }
 FixedDb == << [key |-> <<"g", 1>>, dyn |-> FALSE, cls |-> << [id |-> 1, head |-> G(A("a")), body |-> TrueA, nv |-> 0],
                                                           [id |-> 2, head |-> G(A("b")), body |-> TrueA, nv |-> 0] >>],
               [key |-> <<"w", 1>>, dyn |-> FALSE, cls |-> << [id |-> 3, head |-> C("w", <<V(1)>>), body |-> TrueA, nv |-> 1] >>],
+              [key |-> <<"deep", 0>>, dyn |-> FALSE, cls |-> << [id |-> 9, head |-> A("deep"), body |-> TrueA, nv |-> 0] >>],
               [key |-> <<"q", 1>>, dyn |-> FALSE, cls |-> << [id |-> 4, head |-> C("q", <<V(1)>>), body |-> C(",", <<G(V(1)), A("!")>>), nv |-> 1],
                                                           [id |-> 5, head |-> C("q", <<A("c")>>), body |-> TrueA, nv |-> 0] >>] >>
 
